@@ -273,6 +273,49 @@ def state_problems(case):
             if tb[-1].filename.startswith("/verif/"):
                 raise
             probs.append(("hier:warm-object:exception:%s" % type(e).__name__, "%r" % (e,)))
+    # discretization object reused after a failed call: an assembly that raises (an input is missing) must leave the
+    # object in a state from which the corrected call gives the same result as a fresh object
+    if "reaction_f" in case["forms"]:
+        try:
+            from pyiga import vform
+            geo = make_geo("identity", M.dim)
+
+            def reaction_vf():
+                vf = vform.VForm(M.dim)
+                u, v = vf.basisfuns()
+                f = vf.input("f")
+                vf.add(f * u * v * vform.dx)
+                return vf
+            for truncate in (False, True):
+                hs = hierarchical.HSpace(c04._G["kvs"], truncate=truncate, disparity=c04._G["disp"], bdspecs=[(0, 0)])
+                for ev in hist:
+                    _refine(hs, c04.marks_of(ev)[0])
+                with _Quiet():
+                    fresh = hierarchical.HDiscretization(hs, reaction_vf(), {"geo": geo, "f": _field(M.dim, False)})
+                    A_f = np.asarray(fresh.assemble_matrix().todense())
+                    b_f = np.asarray(fresh.assemble_rhs(vform.L2functional_vf(M.dim, physical=False))).ravel()
+                    hd = hierarchical.HDiscretization(hs, reaction_vf(), {"geo": geo})
+                    failed = False
+                    try:
+                        hd.assemble_matrix()
+                    except Exception:
+                        failed = True
+                    hd.asm_args["f"] = _field(M.dim, False)
+                    A_r = np.asarray(hd.assemble_matrix().todense())
+                    b_r = np.asarray(hd.assemble_rhs(vform.L2functional_vf(M.dim, physical=False))).ravel()
+                ncmp += 1
+                if failed and (A_r.shape != A_f.shape or np.abs(A_r - A_f).max() > TOL * max(np.abs(A_f).max(), 1e-300)
+                               or np.abs(b_r - b_f).max() > TOL * max(np.abs(b_f).max(), 1e-300)):
+                    probs.append(("hier:retry-after-failed-call:%s" % ("thb" if truncate else "hb"),
+                                  "HDiscretization whose first assemble_matrix() raised (input 'f' missing): after supplying the input, "
+                                  "the same object assembles a different matrix/vector than a fresh object (max deviation %.3g / %.3g)"
+                                  % (np.abs(A_r - A_f).max() if A_r.shape == A_f.shape else np.inf, np.abs(b_r - b_f).max())))
+        except Exception as e:
+            import traceback
+            tb = traceback.extract_tb(e.__traceback__)
+            if tb[-1].filename.startswith("/verif/"):
+                raise
+            probs.append(("hier:retry-after-failed-call:exception:%s" % type(e).__name__, "%r" % (e,)))
     seen, out = set(), []
     for k, m in probs:
         if k not in seen:
